@@ -19,7 +19,7 @@ PRODUCERS = [q for q, (_, role) in O.QUERIES.items() if role == "P"]
 CONSUMERS = [q for q, (_, role) in O.QUERIES.items() if role in ("C", "X")]
 EXPORTS = [q for q, (_, role) in O.QUERIES.items() if role == "X"]
 ISOLATED_SHARE = 0.25
-FORK_OPS = ["deepcopy", "deepcopy", "pickle", "pickle", "reload", "reload", "derive_P1", "derive_cif", "derive_res"]
+FORK_OPS = ["deepcopy", "deepcopy", "pickle", "pickle", "reload", "reload", "derive_P1", "derive_cif", "derive_res", "stranger", "stranger"]
 RADII = [1.5, 3.0, 3.8, 6.0, 9.0]
 BOUNDS = [
     [[-1, -1, -1], [1, 1, 1]],
@@ -294,7 +294,7 @@ def template_run(verif_seed, index, stratum="template"):
 
 # ------------------------------------------- three-object fork patterns
 FORK3_FIRST = [None, "uc_atoms", "uc_mols", "sym_mols"]
-FORK3_KINDS = [("deepcopy", "deepcopy"), ("deepcopy", "pickle"), ("pickle", "deepcopy"), ("deepcopy", "reload")]
+FORK3_KINDS = [("deepcopy", "deepcopy"), ("deepcopy", "pickle"), ("pickle", "deepcopy"), ("deepcopy", "reload"), ("stranger", "deepcopy")]
 FORK3_TOPOLOGY = ["star", "chain"]  # both copies of h0 / copy of a copy
 FORK3_ORDER = [(0, 1), (1, 0), (0, 2), (2, 0), (1, 2), (2, 1)]  # which two handles are switched, in order
 FORK3_SOURCES = [
